@@ -47,7 +47,9 @@ Inductive expr :=
 | ESetLit (items : list expr)
 | EListLit (items : list expr)
 | ETupleLit (items : list expr)
-| EDictLit (items : list (expr * expr)).
+| EDictLit (items : list (expr * expr))
+| EStar (e : expr)                              (* *e as a positional call argument: the items of e are spliced in *)
+| ESorted (e : expr) (x : string) (key : expr).   (* sorted(e, key=lambda x: key); sorted(e) has key = x *)
 
 (* assignment targets *)
 Inductive target :=
